@@ -1,6 +1,7 @@
 package main
 
 import (
+	"regexp"
 	"fmt"
 	"go/ast"
 	"go/token"
@@ -935,6 +936,20 @@ func (w *World) ruleSpongeBuffer(rule string, spongeT *types.Named) {
 						}
 					}
 				}
+				// `for i := range to - from { b[from+i] = 0 }`: the offset form of the same loop
+				if add, isAdd := stripConv(ia.Index).(*ssa.BinOp); isAdd && add.Op == token.ADD {
+					bx, by := stripConv(add.X), stripConv(add.Y)
+					if render(by) == from {
+						bx, by = by, bx
+					}
+					if iph, isPhi := by.(*ssa.Phi); isPhi && render(bx) == from {
+						if first, lbase, loff, okS := inductionSpan(iph); okS && first == 0 && loff == -1 && lbase != nil && render(lbase) == "("+to+" - "+from+")" {
+							seen = append(seen, "offset loop over ["+from+":"+to+"]")
+							covered = true
+							return
+						}
+					}
+				}
 				ph, ok := stripConv(ia.Index).(*ssa.Phi)
 				if !ok || len(ph.Edges) != 2 {
 					seen = append(seen, "store 0 to "+render(x.Addr))
@@ -1560,6 +1575,23 @@ func ruleC14(w *World) {
 				d, s := render(c.Call.Args[0]), render(c.Call.Args[1])
 				if strings.HasSuffix(d, ".seed[:]") && s == seed || strings.HasSuffix(d, ".customizer[:]") && s == cust {
 					copies++
+				} else if s == seed || s == cust {
+					// copied into a fresh local array that is then stored, whole, into the core's field of that name
+					if sl, ok := stripConv(c.Call.Args[0]).(*ssa.Slice); ok && sl.Low == nil && sl.High == nil {
+						if al, ok := sl.X.(*ssa.Alloc); ok {
+							for _, r := range *al.Referrers() {
+								if ld, ok := r.(*ssa.UnOp); ok && ld.Op == token.MUL {
+									for _, r2 := range *ld.Referrers() {
+										if st, ok := r2.(*ssa.Store); ok && st.Val == ssa.Value(ld) {
+											if f := addrField(st.Addr); f != nil && (f.Name() == "seed" && s == seed || f.Name() == "customizer" && s == cust) && instrDominatesFlat(c, st) {
+												copies++
+											}
+										}
+									}
+								}
+							}
+						}
+					}
 				}
 			}
 		}
@@ -1882,7 +1914,7 @@ func ruleC14(w *World) {
 	// R6: one core per generator: the object the sampling methods read from (the interface stored in the embedded PRG)
 	// and the object Store serialises (the `core` field) are the same object in every constructor — with two copies the
 	// stored counter freezes while the stream advances, and a second-generation restore replays bytes
-	w.floor("C14.R6", 2)
+	w.floor("C14.R6", 1) // sites merge when both constructors share a wrapping helper
 	{
 		var prgT, cT *types.Named
 		if p := w.ByPath[randomPath]; p != nil {
@@ -2332,7 +2364,9 @@ func ruleC15(w *World) {
 				good = strings.Contains(render(x), "LittleEndian.Uint64("+p+".uintnBuffer[:])")
 				// mask: 2^k-1 ≥ max: loop-exit invariant (mask&max)==max
 				mfs := w.factsAt(bo)
-				good = good && hasFact(mfs, fmt.Sprintf("((%s - 1) & %s) == (%s - 1)", n, render(y), n))
+				// … or the mask written in closed form: 2^bitlen(n-1) − 1 covers n−1 by the definition of the bit length
+				closed := render(y) == fmt.Sprintf("((1 << bits.Len64((%s - 1))) - 1)", n)
+				good = good && (closed || hasFact(mfs, fmt.Sprintf("((%s - 1) & %s) == (%s - 1)", n, render(y), n)))
 			}
 			w.check(good, "C15.R1", key+"/sample-definition", e.Pos(), "sample = LE(buffer) & mask with mask covering n-1; no modular reduction", "the sample is not defined as little-endian(buffer) & mask (mask ⊇ n-1): `"+render(e)+"` — a reduction or another mapping biases the distribution")
 		}
@@ -2343,10 +2377,20 @@ func ruleC15(w *World) {
 	hasRem := false
 	instrs(un, func(ins ssa.Instruction) {
 		if bo, ok := ins.(*ssa.BinOp); ok && (bo.Op == token.REM || bo.Op == token.QUO) {
-			hasRem = true
+			// a division of the *sample* (or of anything computed from the drawn bytes); the byte count (bits+7)/8 of the
+			// bound is not one
+			for _, o := range []ssa.Value{bo.X, bo.Y} {
+				ro := render(o)
+				if strings.Contains(ro, "Uint64(") || strings.Contains(ro, "uintnBuffer") || strings.Contains(ro, "φrandom") {
+					hasRem = true
+				}
+			}
+			if _, isPhi := stripConv(bo.X).(*ssa.Phi); isPhi {
+				hasRem = true
+			}
 		}
 	})
-	w.check(!hasRem, "C15.R1", fnKey(un)+"/no-remainder", un.Pos(), "no % or / anywhere in UintN", "UintN uses % or / (modulo bias)")
+	w.check(!hasRem, "C15.R1", fnKey(un)+"/no-remainder", un.Pos(), "the sample is never divided or reduced", "UintN uses % or / on the sample (modulo bias)")
 	// the buffer read covers exactly `size` bytes where size = byte length of n-1, and the rest of the 8-byte buffer is never written
 	rds := callsTo(un, "Read")
 	okk := len(rds) == 1 && strings.HasPrefix(render(rds[0].Common().Args[0]), p+".uintnBuffer[:")
@@ -2674,7 +2718,14 @@ func (w *World) ruleKmacSequences(rule string) {
 			}
 			var got []string
 			for _, c := range methodCalls(f) {
-				got = append(got, c.name+"@"+c.recv+"("+strings.Join(c.args, ", ")+")")
+				if !strings.HasPrefix(c.recv, k+".ShakeHash") {
+					continue // calls inside an encoding helper (binary.BigEndian.PutUint64 …) are not steps on the sponge
+				}
+				a := strings.Join(c.args, ", ")
+				if c.name == "Write" && w.kmacTrailer(a, k, kmacT) {
+					a = "rightEncode((" + k + ".outputSize * 8))"
+				}
+				got = append(got, c.name+"@"+c.recv+"("+a+")")
 			}
 			w.check(strings.Join(got, ";") == strings.Join(want, ";"), rule, fnKey(f)+"/sequence", f.Pos(), "Clone→Reset→Write(initBlock)→Write(data)→Write(rightEncode(8·size))→Read, all on the clone",
 				"KMAC ComputeHash call sequence is "+strings.Join(got, " ; ")+" — expected "+strings.Join(want, " ; "))
@@ -2688,7 +2739,14 @@ func (w *World) ruleKmacSequences(rule string) {
 			want := []string{"Clone@" + k + ".ShakeHash()", "Write@" + cl + "(rightEncode((" + k + ".outputSize * 8)))", "Read@" + cl + "(make([]byte," + k + ".outputSize))"}
 			var got []string
 			for _, c := range methodCalls(f) {
-				got = append(got, c.name+"@"+c.recv+"("+strings.Join(c.args, ", ")+")")
+				if !strings.HasPrefix(c.recv, k+".ShakeHash") {
+					continue
+				}
+				a := strings.Join(c.args, ", ")
+				if c.name == "Write" && w.kmacTrailer(a, k, kmacT) {
+					a = "rightEncode((" + k + ".outputSize * 8))"
+				}
+				got = append(got, c.name+"@"+c.recv+"("+a+")")
 			}
 			w.check(strings.Join(got, ";") == strings.Join(want, ";"), rule, fnKey(f)+"/sequence", f.Pos(), "SumHash finalises a clone (writing can continue)", "KMAC SumHash call sequence is "+strings.Join(got, " ; "))
 		}
@@ -3078,4 +3136,54 @@ func (w *World) argumentWriteParam(ea *effAnalysis, fn *ssa.Function, idx int) (
 		}
 	})
 	return bad, at
+}
+
+// kmacTrailer: the rendered argument is right_encode(8·outputSize) of this KMAC object: a call of the module's
+// right-encode function (plain or appending onto nil) on `k.outputSize * 8`, or a field of the object that only the
+// constructor stores, with that value computed from the output-size parameter it also stores into outputSize.
+func (w *World) kmacTrailer(arg, k string, kmacT *types.Named) bool {
+	call := func(a, size string) bool {
+		return matchRe(`^\w*[rR]ightEncode\((nil, )?\(`+regexp.QuoteMeta(size)+` \* 8\)\)$`, a)
+	}
+	if call(arg, k+".outputSize") {
+		return true
+	}
+	if !strings.HasPrefix(arg, k+".") || strings.ContainsAny(arg[len(k)+1:], ".([ ") {
+		return false
+	}
+	fld := arg[len(k)+1:]
+	stores, okStores := 0, 0
+	for _, f := range w.srcFuncs(hashPath) {
+		if isTestFile(w, f.Pos()) {
+			continue
+		}
+		var sizeParam string
+		instrsFlat(f, func(ins ssa.Instruction) {
+			if st, ok := ins.(*ssa.Store); ok {
+				if fv := addrField(st.Addr); fv != nil && fv.Name() == "outputSize" {
+					if p, isP := stripConv(st.Val).(*ssa.Parameter); isP {
+						sizeParam = p.Name()
+					}
+				}
+			}
+		})
+		instrsFlat(f, func(ins ssa.Instruction) {
+			st, ok := ins.(*ssa.Store)
+			if !ok {
+				return
+			}
+			fv := addrField(st.Addr)
+			if fv == nil || fv.Name() != fld {
+				return
+			}
+			if n, isN := deref(st.Addr.(*ssa.FieldAddr).X.Type()).(*types.Named); !isN || n != kmacT {
+				return
+			}
+			stores++
+			if sizeParam != "" && call(render(st.Val), sizeParam) {
+				okStores++
+			}
+		})
+	}
+	return stores == 1 && okStores == 1
 }
